@@ -24,6 +24,9 @@ import (
 func TestC07(t *testing.T) {
 	run := vk.New("C07", "sequential")
 	defer run.Finish()
+	if run.Shard == 0 {
+		forwardedContextOverlap(run)
+	}
 	all := evt.Drivers()
 	n := run.Scale(150, 2500)
 	procs := []int{1, 2, 4, 16}
